@@ -112,6 +112,8 @@ func (e event) coq() string {
 		return "EExpire"
 	case "foreign":
 		return fmt.Sprintf("EForeign %d %d", e.ID, e.Post)
+	case "handoff":
+		return "EHandoff"
 	}
 	return "EExpire"
 }
@@ -255,12 +257,15 @@ func buildLTX(ps uint32, commit uint32, txid uint64, pre, post uint64, pages map
 }
 
 func (g *rig) settle(fully bool) {
-	deadline := time.Now().Add(600 * time.Millisecond)
+	// R follows the primary; so does O unless it is a former primary that still holds the halt lock it had granted
+	// (it then waits for that lock: nothing to wait for here)
+	deadline := time.Now().Add(5 * time.Second)
 	for time.Now().Before(deadline) {
 		pt, pc := pos(g.p)
 		rt, rc := pos(g.rn)
 		ot, oc := pos(g.o)
-		if pt == rt && pc == rc && pt == ot && pc == oc {
+		oStuck := g.o.Store.DB(dbName) != nil && g.o.Store.DB(dbName).VerifHaltLockID() != 0
+		if pt == rt && pc == rc && ((pt == ot && pc == oc) || oStuck) {
 			return
 		}
 		time.Sleep(2 * time.Millisecond)
@@ -275,7 +280,7 @@ func (g *rig) observe(code int) []uint64 {
 	if hl := g.rn.Store.DB(dbName).RemoteHaltLock(); hl != nil {
 		rl = uint64(hl.ID)
 	}
-	return []uint64{uint64(code), pt, pc, rt, rc, ot, oc, uint64(g.p.Store.DB(dbName).VerifHaltLockID()), rl}
+	return []uint64{uint64(code), pt, pc, rt, rc, ot, oc, uint64(g.p.Store.DB(dbName).VerifHaltLockID()), rl, uint64(g.o.Store.DB(dbName).VerifHaltLockID())}
 }
 
 func history(c *common.Ctx, cf *common.CaseFile, r *common.Rand, idx int, script []event, wal bool) error {
@@ -323,7 +328,7 @@ func history(c *common.Ctx, cf *common.CaseFile, r *common.Rand, idx int, script
 	if err != nil {
 		return err
 	}
-	o, err := clu.Start("o", false)
+	o, err := clu.Start("o", true) // a candidate: the role can be handed to it
 	if err != nil {
 		return err
 	}
@@ -397,6 +402,8 @@ func history(c *common.Ctx, cf *common.CaseFile, r *common.Rand, idx int, script
 				e = event{Kind: "expire"}
 			case x < 92:
 				e = event{Kind: "restart"}
+			case x < 95:
+				e = event{Kind: "handoff"}
 			default:
 				e = event{Kind: "foreign", ID: int64(11 + r.Intn(3))}
 			}
@@ -522,8 +529,36 @@ func history(c *common.Ctx, cf *common.CaseFile, r *common.Rand, idx int, script
 			}
 			code = 1
 		case "expire":
-			pdb.VerifExpireHaltLock()
-			p.Store.EnforceHaltLockExpiration(context.Background())
+			for _, nd := range []*cluster.Node{g.p, g.o} {
+				nd.Store.DB(dbName).VerifExpireHaltLock()
+				nd.Store.EnforceHaltLockExpiration(context.Background())
+			}
+			code = 1
+		case "handoff":
+			// the primary hands its role to the other candidate; a former primary that still holds the halt lock it had
+			// granted is not connected (it waits for that lock before it takes up the replica role) and cannot be the target
+			hctx, cancel := context.WithTimeout(context.Background(), 2*time.Second)
+			err := g.p.Store.Handoff(hctx, g.o.Store.ID())
+			cancel()
+			if err != nil {
+				break
+			}
+			deadline := time.Now().Add(5 * time.Second)
+			for time.Now().Before(deadline) {
+				_, info := g.rn.Store.PrimaryInfo()
+				if g.o.Store.IsPrimary() && !g.p.Store.IsPrimary() && info != nil && info.AdvertiseURL == g.o.Server.URL() {
+					break
+				}
+				time.Sleep(2 * time.Millisecond)
+			}
+			if !g.o.Store.IsPrimary() {
+				c.Violate(key("handoff:no-primary"), "the role was handed over and the target did not become primary", rep)
+				return nil
+			}
+			g.p, g.o = g.o, g.p
+			p, o = g.p, g.o
+			pdb = p.Store.DB(dbName)
+			ptB, pcB = pos(p)
 			code = 1
 		case "foreign":
 			im, err := lfs.ReadImage(filepath.Dir(pdb.DatabasePath()))
@@ -562,6 +597,18 @@ func history(c *common.Ctx, cf *common.CaseFile, r *common.Rand, idx int, script
 			c.Violate(key("ordered"), fmt.Sprintf("one %s event moved the primary from transaction %d to %d", e.Kind, ptB, ptA), rep)
 		}
 		g.settle(true)
+		// nothing a node did not publish is in its log: the newest transaction file is the node's position
+		for _, nd := range []*cluster.Node{g.p, g.rn, g.o} {
+			infos, _ := lfs.ListLTX(filepath.Join(nd.Dir, "dbs", dbName))
+			if len(infos) == 0 {
+				continue
+			}
+			last := infos[len(infos)-1]
+			nt, nc := pos(nd)
+			if last.Max > nt || (last.Max == nt && last.Valid && last.Post != nc) {
+				c.Violate(key("log-beyond-position:"+nd.Name), fmt.Sprintf("after %s node %s is at (%d,%016x) but its log ends with %s (%d-%d, post %016x): a transaction that was not published is in the log and would be replayed at the next restart", e.Kind, nd.Name, nt, nc, last.Name, last.Min, last.Max, last.Post), rep)
+			}
+		}
 		evs = append(evs, e)
 		obs = append(obs, g.observe(code))
 		c.Evaluations++
@@ -575,8 +622,10 @@ func history(c *common.Ctx, cf *common.CaseFile, r *common.Rand, idx int, script
 	if hl := rdb().RemoteHaltLock(); hl != nil {
 		_ = rdb().ReleaseRemoteHaltLock(context.Background(), hl.ID)
 	}
-	if id := pdb.VerifHaltLockID(); id != 0 {
-		pdb.ReleaseHaltLock(context.Background(), id)
+	for _, nd := range []*cluster.Node{g.p, g.o} {
+		if id := nd.Store.DB(dbName).VerifHaltLockID(); id != 0 {
+			nd.Store.DB(dbName).ReleaseHaltLock(context.Background(), id)
+		}
 	}
 	if ok, errs := g.writeTx(p); !ok {
 		c.Violate(key("after-release:primary-cannot-write"), "after every halt lock was released the primary cannot commit: "+errs, rep)
@@ -629,6 +678,15 @@ func Run(c *common.Ctx) error {
 		{{Kind: "foreign", ID: 11}, {Kind: "commit", Delivered: true}, {Kind: "grant", ID: 0, Delivered: true}, {Kind: "localwrite"}},
 		{{Kind: "grant", ID: 11, Delivered: true}, {Kind: "commit", Delivered: true}, {Kind: "restart"}, {Kind: "commit", Delivered: true}, {Kind: "localwrite"}, {Kind: "expire"}, {Kind: "localwrite"}, {Kind: "grant", ID: 12, Delivered: true}, {Kind: "commit", Delivered: true}, {Kind: "release", Delivered: true}},
 	}
+	// primary change while a halt is held: the former holder cannot publish, the new primary writes, the former primary
+	// follows again once the lock it had granted has expired; a hand-over back to it is refused until then
+	scripts = append(scripts,
+		[]event{{Kind: "grant", ID: 11, Delivered: true}, {Kind: "commit", Delivered: true}, {Kind: "handoff"}, {Kind: "commit", Delivered: true}, {Kind: "localwrite"}, {Kind: "handoff"}, {Kind: "expire"}, {Kind: "handoff"}, {Kind: "localwrite"}, {Kind: "grant", ID: 12, Delivered: true}, {Kind: "commit", Delivered: true}, {Kind: "release", Delivered: true}},
+		[]event{{Kind: "localwrite"}, {Kind: "handoff"}, {Kind: "grant", ID: 11, Delivered: true}, {Kind: "commit", Delivered: true}, {Kind: "handoff"}, {Kind: "foreign", ID: 11}, {Kind: "grant", ID: 11, Delivered: true}, {Kind: "commit", Delivered: false}, {Kind: "expire"}, {Kind: "localwrite"}},
+	)
+	// a release that names a lock which is not the current one (the holder's lock expired, the primary granted another
+	// one whose answer was lost) leaves the current lock alone
+	scripts = append(scripts, []event{{Kind: "grant", ID: 11, Delivered: true}, {Kind: "expire"}, {Kind: "grant", ID: 12, Delivered: false}, {Kind: "release", Delivered: true}, {Kind: "localwrite"}, {Kind: "expire"}, {Kind: "localwrite"}})
 	if c.Replay != "" {
 		b, err := os.ReadFile(c.Replay)
 		if err != nil {
